@@ -344,16 +344,16 @@ fn c17_body<const N: usize>(with_rule: bool) {
         Err(_) => return,
     };
     let mut full: [Option<FoundDateTimeKind>; 4] = [None; 4];
-    let rfull = DateTime::find_n(&mut full, Y, 1, 1, 0, 0, 0, NS, zone);
+    let rfull = DateTime::find_n(&mut full[..N + 2], Y, 1, 1, 0, 0, 0, NS, zone);
     let sentinel = Some(FoundDateTimeKind::Normal(DateTime { year: 1, month: 1, month_day: 1, hour: 0, minute: 0, second: 0, local_time_type: LocalTimeType::utc(), unix_time: 424242, nanoseconds: 7 }));
     let mut small: [Option<FoundDateTimeKind>; 4] = [sentinel; 4];
     let len: usize = kani::any();
-    kani::assume(len <= 4);
+    kani::assume(len <= N + 2);
     let rs = DateTime::find_n(&mut small[..len], Y, 1, 1, 0, 0, 0, NS, zone);
     match (rfull, rs) {
         (Ok(f), Ok(s)) => {
             let k = f.count();
-            assert!(f.is_exhaustive() && k <= 4);
+            assert!(f.is_exhaustive() && k <= N + 1);
             assert!(s.count() == k);
             let w = if len < k { len } else { k };
             assert!(s.data().len() == w);
